@@ -737,7 +737,91 @@ pub fn verif_clone_entries(v: &Vec<StreamEntry>) -> (r: Vec<StreamEntry>)
     ensures r == *v,
 { unimplemented!() }
 
+/// std's binary search by id on a slice sorted by id, in the two forms `range` uses it (RXPR sites; closure-taking std search): ASSUMED
+/// `entries.binary_search_by(|e| e.id.cmp(start)).unwrap_or_else(|idx| idx)`: the index of the first entry whose id is not less than `start`
+#[verifier::external_body]
+pub fn verif_lower_bound(entries: &Vec<StreamEntry>, id: &StreamId) -> (r: usize)
+    requires sorted_ids(entries@),
+    ensures r <= entries@.len(),
+        forall|j: int| 0 <= j < r ==> (#[trigger] entries@[j]).id.packed < id.packed,
+        forall|j: int| r <= j < entries@.len() ==> (#[trigger] entries@[j]).id.packed >= id.packed,
+{ unimplemented!() }
+/// `entries.binary_search_by(|e| e.id.cmp(end))`: Ok(i) = the entry with that id, Err(i) = where it would be inserted
+#[verifier::external_body]
+pub fn verif_bsearch(entries: &Vec<StreamEntry>, id: &StreamId) -> (r: std::result::Result<usize, usize>)
+    requires sorted_ids(entries@),
+    ensures match r {
+        Ok(i) => i < entries@.len() && entries@[i as int].id.packed == id.packed,
+        Err(i) => i <= entries@.len() && (forall|j: int| 0 <= j < i ==> (#[trigger] entries@[j]).id.packed < id.packed) && (forall|j: int| i <= j < entries@.len() ==> (#[trigger] entries@[j]).id.packed > id.packed),
+    },
+{ unimplemented!() }
+/// the entries of `es` whose ids lie in [start, end] are exactly es[lo .. hi1)
+pub open spec fn id_window(es: Seq<StreamEntry>, start: StreamId, end: StreamId, lo: int, hi1: int) -> bool {
+    &&& 0 <= lo <= es.len() && 0 <= hi1 <= es.len()
+    &&& forall|j: int| 0 <= j < lo ==> (#[trigger] es[j]).id.packed < start.packed
+    &&& forall|j: int| lo <= j < es.len() ==> (#[trigger] es[j]).id.packed >= start.packed
+    &&& forall|j: int| 0 <= j < hi1 ==> (#[trigger] es[j]).id.packed <= end.packed
+    &&& forall|j: int| hi1 <= j < es.len() ==> (#[trigger] es[j]).id.packed > end.packed
+}
+/// XRANGE / XREVRANGE: `r` is the first (forward) resp. last-first (reverse) at most `maxc` entries of the window
+pub open spec fn range_is(es: Seq<StreamEntry>, start: StreamId, end: StreamId, maxc: int, reverse: bool, r: Seq<StreamEntry>, lo: int, hi1: int) -> bool {
+    &&& id_window(es, start, end, lo, hi1)
+    &&& r.len() == (if hi1 <= lo { 0 } else if hi1 - lo <= maxc { hi1 - lo } else { maxc })
+    &&& (!reverse ==> forall|j: int| 0 <= j < r.len() ==> #[trigger] r[j] == es[lo + j])
+    &&& (reverse ==> forall|j: int| 0 <= j < r.len() ==> #[trigger] r[j] == es[hi1 - 1 - j])
+}
+
 impl StreamData {
+//@@ unit data_range fn src/storage/stream.rs StreamData::range
+//@@   rewrite RXPR "self.entries.binary_search_by(|e| e.id.cmp(start)) .unwrap_or_else(|idx| idx)" "verif_lower_bound(&self.entries, start)"
+//@@   rewrite RXPR "self.entries.binary_search_by(|e| e.id.cmp(end))" "verif_bsearch(&self.entries, end)"
+//@@   rewrite RT "self.entries[i].clone()" "verif_clone_entry(&self.entries[i])"
+//@@   rewrite RT "let mut result_entries = Vec::new();" "let mut result_entries: Vec<StreamEntry> = Vec::new();"
+//@@   rewrite RFORI 0
+//@@   rewrite RFORI 1
+//@@   at "let mut result_entries = Vec::new();"
+//@@|     let ghost es = self.entries@; let ghost lo = start_idx as int; let ghost hi1 = end_idx + 1; let ghost maxc = maxc_of(count, es.len());
+//@@|     proof { assert(id_window(es, *start, *end, lo, hi1)); }
+//@@   loop 0
+//@@|     invariant_except_break
+//@@|         i__go ==> i__n == hi1 - 1 - result_entries@.len() && i__lo <= i__n,
+//@@|         !i__go ==> (hi1 <= lo && result_entries@.len() == 0) || result_entries@.len() == hi1 - lo,
+//@@|     invariant
+//@@|         i__lo == lo, hi1 <= es.len(), es == self.entries@, maxc == maxc_of(count, es.len()),
+//@@|         result_entries@.len() <= maxc, hi1 > lo ==> result_entries@.len() <= hi1 - lo, hi1 <= lo ==> result_entries@.len() == 0,
+//@@|         forall|j: int| 0 <= j < result_entries@.len() ==> #[trigger] result_entries@[j] == es[hi1 - 1 - j],
+//@@|     ensures
+//@@|         result_entries@.len() == (if hi1 <= lo { 0 } else if hi1 - lo <= maxc { hi1 - lo } else { maxc }),
+//@@|         forall|j: int| 0 <= j < result_entries@.len() ==> #[trigger] result_entries@[j] == es[hi1 - 1 - j],
+//@@|     decreases (if i__go { i__n - i__lo + 1 } else { 0 }),
+//@@   loop 1
+//@@|     invariant_except_break
+//@@|         i__go ==> i__n == lo + result_entries@.len() && i__n <= i__end,
+//@@|         !i__go ==> (hi1 <= lo && result_entries@.len() == 0) || result_entries@.len() == hi1 - lo,
+//@@|     invariant
+//@@|         i__end == hi1 - 1, hi1 <= es.len(), hi1 >= 1, 0 <= lo, es == self.entries@, maxc == maxc_of(count, es.len()),
+//@@|         result_entries@.len() <= maxc, hi1 > lo ==> result_entries@.len() <= hi1 - lo, hi1 <= lo ==> result_entries@.len() == 0,
+//@@|         forall|j: int| 0 <= j < result_entries@.len() ==> #[trigger] result_entries@[j] == es[lo + j],
+//@@|     ensures
+//@@|         result_entries@.len() == (if hi1 <= lo { 0 } else if hi1 - lo <= maxc { hi1 - lo } else { maxc }),
+//@@|         forall|j: int| 0 <= j < result_entries@.len() ==> #[trigger] result_entries@[j] == es[lo + j],
+//@@|     decreases (if i__go { i__end - i__n + 1 } else { 0 }),
+//@@   loopstart 0
+//@@|     proof { assert(i == hi1 - 1 - result_entries@.len() && i >= lo); }
+//@@   loopstart 1
+//@@|     proof { assert(i == lo + result_entries@.len() && i <= hi1 - 1); }
+//@@   rewrite RT "Err(0) => return StreamRangeResult { entries: Vec::new() }," "Err(0) => { let r_empty = StreamRangeResult { entries: Vec::new() }; proof { assert(range_is(self.entries@, *start, *end, maxc_of(count, self.entries@.len()), reverse, r_empty.entries@, start_idx as int, 0)); } return r_empty; }"
+//@@   at "StreamRangeResult { entries: result_entries }"
+//@@|     proof { let r0 = StreamRangeResult { entries: result_entries }; assert(range_is(es, *start, *end, maxc, reverse, r0.entries@, lo, hi1)); }
+    fn range(&self, start: &StreamId, end: &StreamId, count: Option<usize>, reverse: bool) -> (r: StreamRangeResult)
+        requires sorted_ids(self.entries@),
+        ensures
+            // C15 (XRANGE / XREVRANGE): exactly the present entries whose ids lie within the requested bounds, in id order (reverse for XREVRANGE),
+            // at most COUNT of them counted from the side the reading starts
+            exists|lo: int, hi1: int| #[trigger] range_is(self.entries@, *start, *end, maxc_of(count, self.entries@.len()), reverse, r.entries@, lo, hi1),
+//@@ body
+//@@ end
+
 //@@ unit data_range_after fn src/storage/stream.rs StreamData::range_after
 //@@   rewrite RXPR "self.entries.binary_search_by(|e| e.id.cmp(after_id)) .map(|idx| idx + 1) .unwrap_or_else(|idx| idx)" "verif_first_after(&self.entries, after_id)"
 //@@   rewrite RT "self.entries[i].clone()" "verif_clone_entry(&self.entries[i])"
